@@ -272,33 +272,50 @@ Print Assumptions c07_reorder.
 (* ---- the same over the in-session model (C13) ----
    One call of RtpUnpackContainer.Feed in the C13 model (raw packet, parsed header,
    checked accessors) against the C12 model (seq, ts, body): for related states
-   (same queue packet for packet, Size, doneSeq) and a packet without RTP padding,
-   whenever the C13 call returns, the C12 call returns the related state and the
+   (same queue packet for packet, Size, doneSeq) and a packet whose Body() is the
+   payload - RTP padding octets allowed except for AAC, whose slice expressions can
+   reach them (tf) -, whenever the C13 call returns, the C12 call returns the related state and the
    same AvPackets - for AVC, HEVC (single, STAP-A / AP, FU), AAC (one, several,
    fragmented access units) and raw payloads, any clock rate 1 .. 2^63-1 *)
 Theorem c07_insess_container_sim : forall u, clock_pos (NetUnpack.uk_clock u) ->
-  forall w c13 c12 h raw body, crel c13 c12 ->
-  NetRtpHeader.rtp_body raw h = Ok (body, []) -> bytes_ok body -> lenN body < 65536 ->
+  let tf := tf_of (NetUnpack.uk_kind u) in
+  forall w c13 c12 h raw body padding, crel tf c13 c12 ->
+  NetRtpHeader.rtp_body raw h = Ok (body, padding) -> (tf = true -> padding = []) -> bytes_ok body -> lenN body < 65536 ->
   match NetUnpack.cont_feed true u w c13 h raw with
   | Ok (c', av) =>
       exists st' outs,
         RtpReorder.feed (pr_of (NetUnpack.uk_kind u)) (Z.to_N (NetUnpack.uk_clock u)) w c12
                         (NetRtpHeader.rh_seq h) (NetRtpHeader.rh_ts h) body = Ok (st', outs) /\
-        crel c' st' /\ av = map (to_av (NetUnpack.uk_pt u)) outs
+        crel tf c' st' /\ av = map (to_av (NetUnpack.uk_pt u)) outs
   | _ => True
   end.
 Proof. exact feed_sim. Qed.
 Print Assumptions c07_insess_container_sim.
 
+(* RFC 3550 5.1 on the ingest side: for EVERY header variant of the reference writer -
+   marker on / off, 0 .. 15 CSRC identifiers, a header extension of 4*n bytes, padding
+   of 1 .. 255 octets whose last one is the count - ParseRtpHeader succeeds with the
+   sequence number, timestamp and payload type written, and Body() is exactly the
+   payload: nothing of CSRC list, extension or padding reaches the depacketisers *)
+Theorem c07_rtp_header_variants : forall v pt seq ts ssrc body,
+  hv_ok v -> pt < 128 -> seq < 65536 -> ts < 4294967296 -> ssrc < 4294967296 -> body <> [] ->
+  exists h, NetRtpHeader.parse_rtp_header true (rtp_raw v pt seq ts ssrc body) = Ok h /\
+            NetRtpHeader.rh_seq h = seq /\ NetRtpHeader.rh_ts h = ts /\ NetRtpHeader.rh_pt h = pt /\
+            NetRtpHeader.rtp_body (rtp_raw v pt seq ts ssrc body) h = Ok (body, pad_bytes (hv_pad v)).
+Proof. exact parse_raw. Qed.
+Print Assumptions c07_rtp_header_variants.
+
 (* a video-only publisher: what rtsp_ingest (SDP -> session as created -> every
    interleaved packet through handleRtpPacket -> unpack container -> remuxer)
    hands to the group is the remuxer's output on what the C12 container returns
    for the same arrivals.  Packets are written by a reference RTP writer
-   (12-byte header, payload of 1 .. 65535 byte values) *)
-Theorem c07_rtsp_video_ingest : forall fx flt rot (hevc : bool) vclock vpt ssrc arrivals groups,
+   in ANY RFC 3550 header variant, chosen per packet by [V]: marker on / off, 0 .. 15
+   CSRC identifiers, header extension of any length, 1 .. 255 padding octets;
+   payload of 1 .. 65535 byte values) *)
+Theorem c07_rtsp_video_ingest : forall V fx flt rot (hevc : bool) vclock vpt ssrc arrivals groups, (forall a, hv_ok (V a)) ->
   (1000 <= vclock < 4294967296000)%Z -> 0 < vpt < 128 -> ssrc < 4294967296 -> Forall arr_ok arrivals ->
   rtsp_ingest fx flt rot NetInSess.c_none 0 0 None (vcodec_tok hevc) vclock (Z.of_N vpt) None None None
-              (map (fun a => (2, raw_of vpt ssrc a)) arrivals) = Ok groups ->
+              (map (fun a => (2, raw_of V vpt ssrc a)) arrivals) = Ok groups ->
   exists st12 outs r',
     RtpReorder.feed_all (pr_of (vkind hevc)) (Z.to_N vclock) 1024 RtpReorder.c_init arrivals = Ok (st12, outs) /\
     feed_all_av fx rs_new (map (to_av (vpt_of hevc)) outs) = Ok (r', concat groups).
@@ -312,7 +329,8 @@ Print Assumptions c07_rtsp_video_ingest.
    (duplicates, stale repeats, swaps inside the window of 1024 / 2^14, sequence
    numbers wrapping): the RTMP messages read back as exactly these units, in
    order, each once, access unit delimiters and parameter sets removed *)
-Theorem c07_rtsp_video : forall flt rot (hevc : bool) maxp vclock vpt ssrc s0 ts0 n0 pls0 (rest : list (N * bytes)) sched groups,
+Theorem c07_rtsp_video : forall V flt rot (hevc : bool) maxp vclock vpt ssrc s0 ts0 n0 pls0 (rest : list (N * bytes)) sched groups,
+  (forall a, hv_ok (V a)) ->
   let c := codec_of hevc in
   let pr := RtpFrames.proto_of_codec c in
   let rate := Z.to_N vclock in
@@ -328,18 +346,19 @@ Theorem c07_rtsp_video : forall flt rot (hevc : bool) maxp vclock vpt ssrc s0 ts
                   ++ map (fun i => RtpStreamProofs.upkt_arrival (RtpStreamProofs.pkt_at s i)) sched in
   Forall arr_ok arrivals ->
   rtsp_ingest true flt rot NetInSess.c_none 0 0 None (vcodec_tok hevc) vclock (Z.of_N vpt) None None None
-              (map (fun a => (2, raw_of vpt ssrc a)) arrivals) = Ok groups ->
+              (map (fun a => (2, raw_of V vpt ssrc a)) arrivals) = Ok groups ->
   read_video_nals (av_msgs (concat groups)) = filter (keep_nal hevc) (n0 :: map snd rest).
 Proof. exact rtsp_video_end_to_end. Qed.
 Print Assumptions c07_rtsp_video.
 
 (* an audio-only publisher (AAC with config, G.711 A/u, Opus): OnSdp's messages first, then
    the remuxer's output on what the C12 container returns (c12_reorder_audio, c12_audio_* apply to it) *)
-Theorem c07_rtsp_audio_ingest : forall fx flt rot ac aclock apt ssrc asc arrivals groups,
+Theorem c07_rtsp_audio_ingest : forall V fx flt rot ac aclock apt ssrc asc arrivals groups,
+  (forall a, hv_ok (V a)) -> (ac = NetInSess.c_aac -> forall a, hv_pad (V a) = None) ->
   (ac = NetInSess.c_aac /\ asc <> None) \/ (ac = NetInSess.c_pcma \/ ac = NetInSess.c_pcmu \/ ac = NetInSess.c_opus) ->
   (1000 <= aclock < 4294967296000)%Z -> apt < 128 -> ssrc < 4294967296 -> Forall arr_ok arrivals ->
   rtsp_ingest fx flt rot ac aclock (Z.of_N apt) asc NetInSess.c_none 0 0 None None None
-              (map (fun a => (0, raw_of apt ssrc a)) arrivals) = Ok groups ->
+              (map (fun a => (0, raw_of V apt ssrc a)) arrivals) = Ok groups ->
   exists r0 ms0 more st12 outs r',
     init_with_av_config rs_new asc None None None = Ok (r0, ms0) /\ groups = ms0 :: more /\
     RtpReorder.feed_all (pr_of (akind ac)) (Z.to_N aclock) 1024 RtpReorder.c_init arrivals = Ok (st12, outs) /\
@@ -356,14 +375,17 @@ Print Assumptions c07_rtsp_audio_ingest.
    c07_queue_rebase apply to it) and the remuxer on what the queue let through *)
 Theorem c07_rtsp_two_tracks_run : forall fx rot cfg ua uv apt vpt assrc vssrc,
   clock_pos (NetUnpack.uk_clock ua) -> clock_pos (NetUnpack.uk_clock uv) ->
+  forall VA VV, (forall a, hv_ok (VA a)) -> (forall a, hv_ok (VV a)) ->
+  (forall a, pad_free (tf_of (NetUnpack.uk_kind ua)) (VA a)) -> (forall a, pad_free (tf_of (NetUnpack.uk_kind uv)) (VV a)) ->
   NetInSess.sc_aunp cfg = Some ua -> NetInSess.sc_vunp cfg = Some uv ->
   NetInSess.sc_apt cfg = Z.of_N apt -> NetInSess.sc_vpt cfg = Z.of_N vpt -> apt <> vpt ->
   NetInSess.sc_artp cfg = 0 -> NetInSess.sc_vrtp cfg = 2 -> apt < 128 -> vpt < 128 ->
   assrc < 4294967296 -> vssrc < 4294967296 ->
   is_video_pt (NetUnpack.uk_pt uv) = true -> is_video_pt (NetUnpack.uk_pt ua) = false ->
   forall pkts s ca cv q r groups,
-  crel (NetInSess.ss_acont s) ca -> crel (NetInSess.ss_vcont s) cv -> Forall (fun x => arr_ok (snd x)) pkts ->
-  rtsp_run fx rot cfg s (Some q) r (map (enc apt vpt assrc vssrc) pkts) = Ok groups ->
+  crel (tf_of (NetUnpack.uk_kind ua)) (NetInSess.ss_acont s) ca -> crel (tf_of (NetUnpack.uk_kind uv)) (NetInSess.ss_vcont s) cv ->
+  Forall (fun x => arr_ok (snd x)) pkts ->
+  rtsp_run fx rot cfg s (Some q) r (map (enc apt vpt assrc vssrc VA VV) pkts) = Ok groups ->
   exists avs sa oa sv ov q' outs r',
     RtpReorder.feed_all (pr_of (NetUnpack.uk_kind ua)) (Z.to_N (NetUnpack.uk_clock ua)) NetInSess.unpacker_max_size ca (sel false pkts) = Ok (sa, oa) /\
     RtpReorder.feed_all (pr_of (NetUnpack.uk_kind uv)) (Z.to_N (NetUnpack.uk_clock uv)) NetInSess.unpacker_max_size cv (sel true pkts) = Ok (sv, ov) /\
@@ -377,17 +399,19 @@ Print Assumptions c07_rtsp_two_tracks_run.
    c07_rtsp_video_container give exactly this form), a consumer reads a PREFIX of them - same
    units, same order, each once, AUD / parameter sets removed - and fewer than 128 units are
    still held back by the queue when the input stops *)
-Theorem c07_rtsp_two_tracks : forall rot cfg ua uv apt vpt assrc vssrc (hevc : bool)
+Theorem c07_rtsp_two_tracks : forall rot cfg ua uv VA VV apt vpt assrc vssrc (hevc : bool)
         pkts s ca cv r groups sv (tsf : N * bytes -> N) (nals : list (N * bytes)),
   clock_pos (NetUnpack.uk_clock ua) -> clock_pos (NetUnpack.uk_clock uv) ->
+  (forall a, hv_ok (VA a)) -> (forall a, hv_ok (VV a)) ->
+  (forall a, pad_free (tf_of (NetUnpack.uk_kind ua)) (VA a)) -> (forall a, pad_free (tf_of (NetUnpack.uk_kind uv)) (VV a)) ->
   NetInSess.sc_aunp cfg = Some ua -> NetInSess.sc_vunp cfg = Some uv ->
   NetInSess.sc_apt cfg = Z.of_N apt -> NetInSess.sc_vpt cfg = Z.of_N vpt ->
   apt <> vpt -> NetInSess.sc_artp cfg = 0 -> NetInSess.sc_vrtp cfg = 2 -> apt < 128 -> vpt < 128 ->
   assrc < 4294967296 -> vssrc < 4294967296 ->
   NetUnpack.uk_pt uv = (if hevc then pt_hevc else pt_avc) -> is_video_pt (NetUnpack.uk_pt ua) = false ->
-  rs_vfmt r = vfmt_avcc -> crel (NetInSess.ss_acont s) ca -> crel (NetInSess.ss_vcont s) cv ->
+  rs_vfmt r = vfmt_avcc -> crel (tf_of (NetUnpack.uk_kind ua)) (NetInSess.ss_acont s) ca -> crel (tf_of (NetUnpack.uk_kind uv)) (NetInSess.ss_vcont s) cv ->
   Forall (fun x => arr_ok (snd x)) pkts ->
-  rtsp_run true rot cfg s (Some aq_init) r (map (enc apt vpt assrc vssrc) pkts) = Ok groups ->
+  rtsp_run true rot cfg s (Some aq_init) r (map (enc apt vpt assrc vssrc VA VV) pkts) = Ok groups ->
   RtpReorder.feed_all (pr_of (NetUnpack.uk_kind uv)) (Z.to_N (NetUnpack.uk_clock uv)) NetInSess.unpacker_max_size cv (sel true pkts)
     = Ok (sv, map (fun tn => (tsf tn, RtpUnpacker.avcc (snd tn))) nals) ->
   Forall (fun tn => avcc_ok (snd tn)) nals ->
@@ -483,6 +507,28 @@ Theorem c07_ps_last_frame_refuted :
              RemuxPsStreamProofs.k_vbuf k' = frame.
 Proof. eexists. vm_compute. split; reflexivity. Qed.
 Print Assumptions c07_ps_last_frame_refuted.
+
+(* B frames: PES packets with PTS and DTS, the stream in decoding order I P B B P, so the PTS goes DOWN from the
+   P frame (19800) to the B frame behind it (12600).  A frame ends where the PTS changes - not where it grows -,
+   and every NAL unit is stamped with the PTS of its own frame (100, 220, 140, 180 ms); the last frame stays
+   buffered.  The bytes are cut in the middle of the first PES packet. *)
+Definition ex_ps_bframes : bytes :=
+  [0; 0; 1; 186; 68; 0; 4; 0; 4; 1; 1; 137; 195; 248; 0; 0; 1; 187; 0; 12; 128; 4; 225; 4; 225; 127; 224; 224; 128; 192; 192; 8;
+   0; 0; 1; 188; 0; 14; 224; 255; 0; 0; 0; 4; 27; 224; 0; 0; 69; 189; 220; 244;
+   0; 0; 1; 224; 0; 34; 140; 192; 10; 49; 0; 1; 70; 81; 17; 0; 1; 42; 49; 0; 0; 0; 1; 103; 66; 0; 30; 0; 0; 0; 1; 104; 206; 0; 0; 0; 1; 101; 136; 128;
+   0; 0; 1; 224; 0; 20; 140; 192; 10; 49; 0; 1; 154; 177; 17; 0; 1; 70; 81; 0; 0; 0; 1; 65; 154; 2;
+   0; 0; 1; 224; 0; 15; 140; 128; 5; 33; 0; 1; 98; 113; 0; 0; 0; 1; 1; 158; 4;
+   0; 0; 1; 224; 0; 15; 140; 128; 5; 33; 0; 1; 126; 145; 0; 0; 0; 1; 1; 158; 6;
+   0; 0; 1; 224; 0; 20; 140; 192; 10; 49; 0; 1; 239; 17; 17; 0; 1; 154; 177; 0; 0; 0; 1; 65; 154; 8].
+Example c07_ps_bframe_order :
+  exists st', RemuxPsStreamProofs.feed_chunks NetPs.ps_init [(firstn 70 ex_ps_bframes, 5400); (skipn 70 ex_ps_bframes, 9000)]
+    = Ok (st', [NetPs.mk_psev 96 100 100 [0; 0; 0; 1; 103; 66; 0; 30]; NetPs.mk_psev 96 100 100 [0; 0; 0; 1; 104; 206];
+                NetPs.mk_psev 96 100 100 [0; 0; 0; 1; 101; 136; 128];
+                NetPs.mk_psev 96 220 220 [0; 0; 0; 1; 65; 154; 2];
+                NetPs.mk_psev 96 140 140 [0; 0; 0; 1; 1; 158; 4];
+                NetPs.mk_psev 96 180 180 [0; 0; 0; 1; 1; 158; 6]]) /\
+    NetPs.ps_vbuf st' = [0; 0; 0; 1; 65; 154; 8].
+Proof. eexists. vm_compute. split; reflexivity. Qed.
 
 (* the two facts it rests on: a complete element at the head of the buffer is consumed in one
    iteration with the effect [astep] describes, whatever follows it; a proper prefix of an element
